@@ -587,7 +587,7 @@ void put_thread(std::vector<uint8_t> &s, int owners, int weaks, const std::vecto
     for (int i = 0; i < 4; i++) s.push_back(i < (int)ops.size() ? (uint8_t)ops[i] : 0);
 }
 
-int engine_g5a(const std::string &catalogue, uint64_t cap, const std::string &outdir, const std::string &tag)
+int engine_g5a(const std::string &catalogue, uint64_t cap, const std::string &outdir, const std::string &tag, unsigned part, unsigned nparts)
 {
     double t0 = now_s();
     g_cur.open(outdir + "/cur-g5a-" + tag + ".case");
@@ -648,7 +648,10 @@ int engine_g5a(const std::string &catalogue, uint64_t cap, const std::string &ou
     std::unordered_set<uint64_t> hashes;
     uint64_t total = 0, cut = 0, nontriv = 0, maxdec = 0, states = 0, capped = 0;
     std::vector<uint8_t> sample, sample2;
+    size_t mine = 0;
     for (size_t i = 0; i < scen.size(); i++) {
+        if (i % nparts != part) continue;
+        mine++;
         DfsResult r = dfs_scenario(scen[i], hashes, cap, true, sample.empty() ? &sample : (i == scen.size() / 2 ? &sample2 : nullptr));
         total += r.schedules; cut += r.cut; nontriv += r.nontrivial; states += r.states;
         if (r.max_decisions > maxdec) maxdec = r.max_decisions;
@@ -664,7 +667,7 @@ int engine_g5a(const std::string &catalogue, uint64_t cap, const std::string &ou
     snprintf(extra, sizeof extra,
              "\"scope\":\"catalogue %s\",\"scenarios\":%zu,\"schedules_cut_by_visited_state\":%llu,\"states\":%llu,"
              "\"max_decisions\":%llu,\"exhaustive\":%s,\"scenarios_capped\":%llu",
-             catalogue.c_str(), scen.size(), (unsigned long long)cut, (unsigned long long)states, (unsigned long long)maxdec,
+             catalogue.c_str(), mine, (unsigned long long)cut, (unsigned long long)states, (unsigned long long)maxdec,
              capped ? "false" : "true", (unsigned long long)capped);
     write_stats(outdir + "/stats-g5a-" + tag, "g5a-dfs", total, nontriv, hashes, samples, now_s() - t0, extra);
     return 0;
@@ -674,7 +677,10 @@ int engine_g5a(const std::string &catalogue, uint64_t cap, const std::string &ou
 int vf_custom(int argc, char **argv)
 {
     // g5a <catalogue> <per-scenario cap> <outdir> <tag>
-    if (argc >= 5 && !strcmp(argv[0], "g5a")) return engine_g5a(argv[1], strtoull(argv[2], 0, 0), argv[3], argv[4]);
+    // g5a <catalogue> <per-scenario schedule cap> <outdir> <tag> [<part> <nparts>]
+    if (argc >= 5 && !strcmp(argv[0], "g5a"))
+        return engine_g5a(argv[1], strtoull(argv[2], 0, 0), argv[3], argv[4], argc >= 7 ? (unsigned)atoi(argv[5]) : 0,
+                          argc >= 7 ? (unsigned)atoi(argv[6]) : 1);
     fprintf(stderr, "unknown engine\n");
     return 2;
 }
